@@ -394,7 +394,10 @@ class Sym:
 
     # ---- ufunc-style methods (NumPy object loops call these)
     def sqrt(s):
-        return Sym(dag.root(s.n, 2))
+        n = s.n
+        if n.op == "mul" and len(n.args[0]) == 1 and n.args[0][0][1] == 2:
+            return abs(Sym(n.args[0][0][0]))          # sqrt(x**2) = |x|
+        return Sym(dag.root(n, 2))
 
     def exp(s):
         return Sym(dag.fn("exp", s.n))
